@@ -149,8 +149,14 @@ class Program:
     def __init__(self, root: str):
         self.root = os.path.abspath(root)
         self.modules: Dict[str, ModuleInfo] = {}
+        self.inlined_helpers: set = set()
+        self.inline_log: List[str] = []
         self._load()
         self._link()
+        if os.environ.get("VERIF_SA_NO_INLINE") != "1":
+            from .inline import inline_new_helpers
+
+            inline_new_helpers(self)
 
     # ------------------------------------------------------------------ loading
     def _load(self) -> None:
@@ -341,11 +347,17 @@ class Program:
     def subclasses(self, c: ClassInfo) -> List[ClassInfo]:
         return [k for m in self.modules.values() for k in m.classes.values() if k is not c and c in self.mro(k)]
 
-    def all_functions(self) -> Iterable[FunctionInfo]:
+    def all_functions(self, include_inlined: bool = False) -> Iterable[FunctionInfo]:
+        """Functions of the package; new helpers whose every call site was expanded into the caller (sa/inline.py) are
+        left out unless asked for - their statements are analysed where they were expanded."""
         for m in self.modules.values():
-            yield from m.functions.values()
+            for f in m.functions.values():
+                if include_inlined or f.qualname not in self.inlined_helpers:
+                    yield f
             for c in m.classes.values():
-                yield from c.methods.values()
+                for f in c.methods.values():
+                    if include_inlined or f.qualname not in self.inlined_helpers:
+                        yield f
 
     def func(self, qual: str) -> Optional[FunctionInfo]:
         """'robotools.worklists.base:BaseWorklist.aspirate' or 'Labware.add' (unique short name)."""
